@@ -312,9 +312,12 @@ func sysPkgLevelFuncLit(f *File) []edit {
 // declaration that calls q.F the statement `q := ns_q__{}` is inserted, where ns_q__ has one method per used package
 // function with the same signature; every other use of the qualifier (types, constants, variables, uses outside
 // function bodies) is rewritten to real_q.
-func sysNamesakeVar(p *Pkg, f *File, id int) []edit {
+// With shadow the file KEEPS importing the real package under its own name (a second import real_q serves the other uses):
+// the local variable then shadows a qualifier that the file's import list really declares.
+func sysNamesakeVar(p *Pkg, f *File, id int, shadow bool) []edit {
 	var eds []edit
 	var decls []string
+	extraImports := map[string]string{} // import path -> fresh local name
 	localName := map[*types.Package]string{}
 	for _, is := range f.AST.Imports {
 		var pn *types.PkgName
@@ -348,7 +351,11 @@ func sysNamesakeVar(p *Pkg, f *File, id int) []edit {
 			if n, ok := localName[other]; ok {
 				return n
 			}
-			return "?missing?"
+			// a package the signatures mention but the file does not import: imported under a fresh name
+			if extraImports[other.Path()] == "" {
+				extraImports[other.Path()] = fmt.Sprintf("dep%d_%s", len(extraImports), other.Name())
+			}
+			return extraImports[other.Path()]
 		}
 		funcs := map[string]*types.Func{}
 		ok := true
@@ -429,7 +436,13 @@ func sysNamesakeVar(p *Pkg, f *File, id int) []edit {
 			return nil
 		}
 		decls = append(decls, b.String())
-		eds = append(eds, edit{off(is.Path.Pos()), off(is.Path.Pos()), real + " "})
+		if shadow {
+			at := off(f.AST.Name.End())
+			eds = append(eds, edit{at, at, fmt.Sprintf("\n\nimport %s %s\n", real, is.Path.Value)})
+			decls = append(decls, fmt.Sprintf("var _ = %s.%s\n", q, names[0]))
+		} else {
+			eds = append(eds, edit{off(is.Path.Pos()), off(is.Path.Pos()), real + " "})
+		}
 		for _, fu := range bodies {
 			if fu.used {
 				at := off(fu.body.Lbrace) + 1
@@ -443,6 +456,19 @@ func sysNamesakeVar(p *Pkg, f *File, id int) []edit {
 	}
 	if len(decls) == 0 {
 		return nil
+	}
+	if len(extraImports) > 0 {
+		paths := make([]string, 0, len(extraImports))
+		for path := range extraImports {
+			paths = append(paths, path)
+		}
+		sort.Strings(paths)
+		var b strings.Builder
+		for _, path := range paths {
+			fmt.Fprintf(&b, "\n\nimport %s %q\n", extraImports[path], path)
+		}
+		at := off(f.AST.Name.End())
+		eds = append(eds, edit{at, at, b.String()})
 	}
 	eds = append(eds, edit{len(f.Src), len(f.Src), strings.Join(decls, "")})
 	return eds
@@ -808,10 +834,26 @@ func Systematic(bases []*Pkg, tier string, seed int64, stats map[string]int) []*
 				eds, extra := sysSplitDecls(base, f)
 				extraFiles = extra
 				add(base, f, "split-decls", eds, nil)
+				// the same package followed by files without declarations: only the package clause, only a comment, only
+				// an import; they are analysed right after the focus file by the same long-lived checker instances
+				if base.Stream == "S1" {
+					pk := f.AST.Name.Name
+					extraFiles = map[string][]byte{
+						"zzy_only_clause.go":  []byte("package " + pk + "\n"),
+						"zzz_only_comment.go": []byte("package " + pk + "\n\n// nothing but a comment\n"),
+						"zzzz_only_import.go": []byte("package " + pk + "\n\nimport _ \"strings\"\n"),
+						"zzzzz_clause2.go":    []byte("package " + pk),
+					}
+					add(base, f, "trailing-empty-files", []edit{{0, 0, ""}}, nil)
+					if lastAdded != nil {
+						lastAdded.FocusAlso = map[string]bool{"zzy_only_clause.go": true, "zzz_only_comment.go": true, "zzzz_only_import.go": true, "zzzzz_clause2.go": true}
+					}
+				}
 			}
 			add(base, f, "namesake-alias", sysNamesakeAlias(base, f), nil)
 			add(base, f, "namesake-import", sysNamesakeImport(base, f), nil)
-			add(base, f, "namesake-var", sysNamesakeVar(base, f, id), nil)
+			add(base, f, "namesake-var", sysNamesakeVar(base, f, id, false), nil)
+			add(base, f, "namesake-shadow", sysNamesakeVar(base, f, id, true), nil)
 		}
 	}
 	return out
